@@ -768,6 +768,58 @@ def queue_case(res, drv, rng, tier, fine=False):
     return script
 
 
+def backlog_case(res, n_items):
+    """a backlog larger than the wake-up socket pair can hold (real threads, no gates): the producer may block
+    in put() until the consumer reads (back-pressure), but once the producer is done every queued item must
+    still be announced: readable iff non-empty, all items handed out, in order"""
+    import time
+    q = BQ.Queue()
+    script = {'client': 'pollqueue-backlog', 'items': n_items, 'events': [['put', n_items], ['get-all']]}
+    done = threading.Event()
+
+    def producer():
+        for i in range(n_items):
+            q.put(i)
+        done.set()
+    th = threading.Thread(target=producer, daemon=True)
+    th.start()
+    # let it run until it finishes or stops making progress (blocked on the full socket pair)
+    last, still = -1, 0
+    while not done.is_set() and still < 5:
+        time.sleep(0.02)
+        n = q.qsize()
+        still = still + 1 if n == last else 0
+        last = n
+    out = []
+    stuck = None
+    deadline = time.time() + 60
+    while time.time() < deadline:
+        if real_select.select([q], [], [], 0.05)[0]:
+            out.append(q.get(block=False))
+            continue
+        if done.is_set():
+            # nothing is half-way any more: the verdict is stable
+            if not real_select.select([q], [], [], 0)[0]:
+                if q.qsize() > 0:
+                    stuck = q.qsize()
+                break
+    res.evaluations += 1
+    res.note('queue.backlog')
+    res.note('queue.backlog.blocked-producer' if len(out) and not stuck and last < n_items else 'queue.backlog.free')
+    if stuck is not None:
+        res.violation('C20', 'readable-iff-nonempty', 'pollable Queue after a backlog of %d puts: qsize()=%d but select() does not report it readable (no put or get in progress; %d items were handed out)' % (n_items, stuck, len(out)), script)
+        res.violation('C12', 'message-stuck', 'blocking thread session read_queue after a backlog of %d messages: %d are queued but read() would block for ever (%d were handed out)' % (n_items, stuck, len(out)), script)
+    elif out != list(range(len(out))) or (done.is_set() and len(out) != n_items):
+        res.violation('C20', 'queue-fifo', 'pollable Queue after a backlog of %d puts handed out %d items, first %r' % (n_items, len(out), out[:8]), script)
+        res.violation('C12', 'message-lost', 'blocking thread session read_queue: backlog of %d messages, %d handed out' % (n_items, len(out)), script)
+    for sk in (q._putsocket, q._getsocket):
+        try:
+            sk.close()
+        except Exception:
+            pass
+    return script
+
+
 # ---------------------------------------------------------------- engine entry points
 
 def compare(res, drv, script, events, lines, label='blocking session'):
@@ -827,6 +879,9 @@ def run(tier, seed, drv, prop=None):
     for k in range(n // 3):
         script = run_case(res, None, rng, tier, profiles[k % len(profiles)], fine=True)
         res.nontriv([json.dumps(script['events'])[:4000]])
+    if prop in (None, 'C20', 'C12'):
+        for n_items in ([1500] if tier == 'quick' else [300, 1500, 6000]):
+            backlog_case(res, n_items)
     if prop in (None, 'C20'):
         for k in range({'quick': 60, 'thorough': 800}[tier]):
             queue_case(res, drv, rng, tier)
@@ -842,6 +897,9 @@ def run(tier, seed, drv, prop=None):
 
 def replay(script, drv):
     res = Result('blkreactor')
+    if script.get('client') == 'pollqueue-backlog':
+        backlog_case(res, script['items'])
+        return res
     if script.get('client') == 'pollqueue':
         res.errors.append('pollqueue scripts are re-found by seed, not replayed (their thread keys are positions in the run)')
         return res
